@@ -98,10 +98,10 @@ SizeStep(e) ==
     [] e.op = "size.parse" ->
          LET json == IsJSONRule(e.rule) IN
          /\ SizeParse(e.in, e.rule, IF json THEN e.doc ELSE NoDoc, IF json THEN e.wf ELSE FALSE)
-         \* JSON documents are C12's; the object form is also "a number and a unit" (C08: exact or refused)
+         \* JSON documents are C12's; the object form is also "a number and a unit", the number form a number of bytes (C08: exact or refused)
          /\ Note(Prefixed(ZParseDemands(e, zRet'), IF json THEN "C12." ELSE "C08.")
                  \o (IF json THEN ImplDemands(e) \o WfDemands(e) ELSE <<>>)
-                 \o (IF json /\ e.wf /\ e.doc.k = "obj" THEN Prefixed(ZParseDemands(e, zRet'), "C08.") ELSE <<>>))
+                 \o (IF json /\ e.wf /\ e.doc.k \in {"obj", "num"} THEN Prefixed(ZParseDemands(e, zRet'), "C08.") ELSE <<>>))
     [] e.op = "size.utext" -> SizeUnmarshalText(e.in) /\ Note(UTextDemands(e, zRet', zRecv', e.recv))
     [] e.op = "size.new"   -> UNCHANGED zvars /\ Note(NewDemands(e))
     [] e.op = "size.bytes" -> UNCHANGED zvars /\ Note(BytesDemands(e))
